@@ -22,6 +22,7 @@ equal the extracted mirror's — the variant selected by HEADER_FIXED.
 The yacc and lex parsers are impl-only oracles here (their mirrors are plugged
 in by C10/C11).
 """
+import re
 from vlib import core
 from gen import c12gen
 
@@ -29,12 +30,14 @@ from gen import c12gen
 #   False = header.rs as pinned (array loop without progress, u64 unwrap)
 #   True  = header.rs after the two repairs proposed by this check
 # The coordinator flips this to True in the commit that repairs header.rs.
-HEADER_FIXED = False
+HEADER_FIXED = True
 
 K_ARRAY = "header: unterminated array value never terminates"
 K_U64 = "header: integer literal beyond u64 panics"
 K_STACK = "header: array nesting recurses on the native stack; tens of thousands of nested '[' abort the process"
 K_LEXSPAN = "lex: error spans are relative to the text after the %grmtools section (C11) and can split a multi-byte character of the full text"
+
+K_LEXTARGET = "lex: DuplicateName span of a rule with a target state ignores the <S> prefix (C11) and can split a multi-byte character of the name"
 
 TIMEOUT_ENV = {"GVH_CASE_TIMEOUT_MS": "2000"}
 
@@ -100,8 +103,10 @@ def generate(ctx):
     for i in range(n_y):
         kind, s = c12gen.yacc_spec(rng, pool) if i >= len(c12gen.YACC_CORPUS) else c12gen.YACC_CORPUS[i]
         add("Y" + kind, s, "valid")
+        if "%grmtools" in s or rng.random() < 0.2:
+            add("YF", s, "valid")
         for v in c12gen.neighbourhood(rng, s, n_trunc=(400 if i < ctx.n(25, 200) else 5), n_inject=ctx.n(10, 40), n_mut=ctx.n(10, 20)):
-            add("Y" + (kind if rng.random() < 0.8 else rng.choice(["N", "G", "E"])), v, "near")
+            add("Y" + (kind if rng.random() < 0.7 else rng.choice(["N", "G", "E", "F", "F"])), v, "near")
     for _ in range(ctx.n(600, 6000)):
         add("Y" + rng.choice(["N", "G", "E"]), rng.choice(["", "%%\n", "%token a\n%%\n", "%%\nA: "]) + c12gen.random_utf8(rng, rng.randint(0, 12)), "random")
     return cases
@@ -127,6 +132,35 @@ def skeleton(text):
     return "".join(o)
 
 
+TARGET_MB = re.compile(r"[ \t]<[+-]?[A-Za-z][A-Za-z0-9_.]*>['\"][^\n]*[^\x00-\x7f]")
+
+
+def errs_of(out):
+    """[(kind, [(s, e)…])] of an `ERRS n X kind k s e …` line"""
+    head = out.split(" # ")[0].split(" ")
+    res, i = [], 2
+    while i < len(head) and head[i] == "X":
+        kind, k = head[i + 1], int(head[i + 2])
+        sp = [(int(head[i + 3 + 2 * q]), int(head[i + 4 + 2 * q])) for q in range(k)]
+        res.append((kind, sp))
+        i += 3 + 2 * k
+    return res
+
+
+def classify_lex_badspan(out, text):
+    """known class of a BADSPAN of the lex parser (both are C11 findings seen through C12's eyes)"""
+    m = re.search(r"# HDRPOS (\d+) (RELOK|RELBAD)", out)
+    if m and int(m.group(1)) > 0 and m.group(2) == "RELOK":
+        return K_LEXSPAN
+    bad = set((int(a), int(b)) for a, b in re.findall(r"# BADSPAN err (\d+) (\d+)", out))
+    if not bad or re.search(r"# BADSPAN (?!err )", out):
+        return None
+    kinds = set(k for k, sp in errs_of(out) if any(x in bad for x in sp))
+    if kinds == {"DuplicateName"} and TARGET_MB.search(text):
+        return K_LEXTARGET
+    return None
+
+
 def classify_header_failure(out, m_orig, m_fixed):
     """known class of a PANIC/HANG of the implementation's header parser, judged by the two
     mirror variants on the same text (narrow: the pinned mirror fails the same way and the
@@ -149,8 +183,6 @@ def run(ctx):
 
     # ---- mirror first (both variants) on every text: required=1 only for H1 cases, the yacc and
     # lex parsers call the section parser with required=false before anything else
-    def mline(fixed, which, text):
-        return "%d %d %s" % (1 if fixed else 0, 1 if which == "H1" else 0, hx(text))
     keys = sorted(set((1 if w == "H1" else 0, t) for w, t, _ in cases if w != "HS"))
     mo = core.run_lines([mexe], ["0 %d %s" % (r, hx(t)) for r, t in keys])
     mf = core.run_lines([mexe], ["1 %d %s" % (r, hx(t)) for r, t in keys])
@@ -158,40 +190,50 @@ def run(ctx):
     m_fixed = dict(zip(keys, mf))
     tied = m_fixed if HEADER_FIXED else m_orig
 
-    # ---- a hang costs 2 s of wall clock: when the pinned mirror predicts one, only a sample of
-    # those cases is run on the implementation (all of them once HEADER_FIXED)
+    # ---- a hang costs 2 s of wall clock.  "Risky" = the pinned mirror runs out of fuel on the text.
+    # Before the repair only a sample of the risky cases is run on the implementation.  After it
+    # (HEADER_FIXED) all of them are run — unless a first sample of them still hangs, in which case
+    # the violation is already established and the remaining risky cases are skipped to stay in time.
     budget = ctx.n(48, 400)
-    selected, skipped = [], 0
     NOMIRROR = "-"
     for w, t, _ in cases:
         if w == "HS":
             m_orig[(0, t)] = m_fixed[(0, t)] = NOMIRROR
-    pred = [c for c in cases if tied[(1 if c[0] == "H1" else 0, c[1])] == "HANG"]
-    keep = set()
-    if pred:
-        firsts = [c for c in pred if c[2] == "corpus"]
-        others = [c for c in pred if c[2] != "corpus"]
-        rng.shuffle(others)
-        # some of every parser
-        byw = {}
-        for c in others:
-            byw.setdefault(c[0][0], []).append(c)
-        pick = list(firsts)
-        while len(pick) < budget and any(byw.values()):
-            for w in sorted(byw):
-                if byw[w] and len(pick) < budget:
-                    pick.append(byw[w].pop())
-        keep = set(id(c) for c in pick)
-    for c in cases:
-        if tied[(1 if c[0] == "H1" else 0, c[1])] == "HANG" and id(c) not in keep:
-            skipped += 1
-        else:
-            selected.append(c)
-    lines = ["%s %s" % (w, hx(t)) for w, t, _ in selected]
-    impl = core.run_lines([exe], lines, env=TIMEOUT_ENV, timeout=3000)
+
+    def risky(c):
+        return m_orig[(1 if c[0] == "H1" else 0, c[1])] == "HANG"
+
+    pred = [c for c in cases if risky(c)]
+    firsts = [c for c in pred if c[2] == "corpus"]
+    others = [c for c in pred if c[2] != "corpus"]
+    rng.shuffle(others)
+    byw = {}
+    for c in others:
+        byw.setdefault(c[0][0], []).append(c)          # some of every parser
+    pick = list(firsts)
+    while len(pick) < budget and any(byw.values()):
+        for w in sorted(byw):
+            if byw[w] and len(pick) < budget:
+                pick.append(byw[w].pop())
+    keep = set(id(c) for c in pick)
+
+    def run_impl(cs):
+        ls = ["%s %s" % (w, hx(t)) for w, t, _ in cs]
+        return ls, core.run_lines([exe], ls, env=TIMEOUT_ENV, timeout=3000)
+
+    selected = [c for c in cases if not risky(c) or id(c) in keep]
+    skipped = len(cases) - len(selected)
+    lines, impl = run_impl(selected)
+    if HEADER_FIXED and skipped:
+        sample_hangs = sum(1 for c, o in zip(selected, impl) if risky(c) and o.startswith("HANG"))
+        if sample_hangs == 0:
+            rest = [c for c in cases if risky(c) and id(c) not in keep]
+            l2, i2 = run_impl(rest)
+            selected, lines, impl, skipped = selected + rest, lines + l2, impl + i2, 0
 
     ndiff = 0
     nwitness = 0
+    deferred = []      # correspondence-only reports: after the property-level witnesses
     for (w, t, origin), line, out in zip(selected, lines, impl):
         rq = 1 if w == "H1" else 0
         mt, mo_, mf_ = tied[(rq, t)], m_orig[(rq, t)], m_fixed[(rq, t)]
@@ -201,7 +243,7 @@ def run(ctx):
         ctx.count(w[0] + "_" + cls)
         sline = line if len(line) < 8000 else line[:120] + "...(hex of the text, %d chars)" % len(line)
         replay = "echo '%s' | GVH_CASE_TIMEOUT_MS=2000 .work/target/release/c12" % sline
-        base = {"parser": {"H": "GrmtoolsSectionParser::parse (required=%s)%s" % (w == "H1", " on an 8 MiB stack" if w == "HS" else ""), "Y": "ASTWithValidityInfo::new + YaccGrammar::new_from_ast_with_validity_info, kind " + w[1:], "L": "LRNonStreamingLexerDef::from_str"}[w[0]],
+        base = {"parser": {"H": "GrmtoolsSectionParser::parse (required=%s)%s" % (w == "H1", " on an 8 MiB stack" if w == "HS" else ""), "Y": "ASTWithValidityInfo::%s + YaccGrammar::new_from_ast_with_validity_info" % ("from_str" if w == "YF" else "new, kind " + w[1:]), "L": "LRNonStreamingLexerDef::from_str"}[w[0]],
                 "text": t if len(t) < 4000 else t[:200] + " ...(%d chars)... " % len(t) + t[-100:],
                 "case": sline, "impl": out[:600], "replay_cmd": replay}
         bad = None
@@ -226,8 +268,8 @@ def run(ctx):
             elif cls in ("PANIC", "HANG"):
                 # every parser starts with the section parser: attribute by the two mirror variants
                 known = classify_header_failure(out, mo_, mf_) if not HEADER_FIXED else None
-            elif bad == "BADSPAN" and w == "L" and "RELOK" in out and " BADSPAN err " in out:
-                known = K_LEXSPAN
+            elif bad == "BADSPAN" and w == "L" and "NOSPAN" not in out:
+                known = classify_lex_badspan(out, t)
             d = dict(base)
             d.update({"violated": "C12: " + bad, "mirror_pinned": mo_[:300], "mirror_repaired": mf_[:300],
                       "authority": "the implementation itself: the property forbids this outcome for every input"})
@@ -240,17 +282,15 @@ def run(ctx):
             if o != mt:
                 ndiff += 1
                 if not bad:
-                    # both are `Done`-like outcomes but differ: the theorems are about a mirror that
-                    # no longer describes header.rs.  No property-level witness (the outcome is a
-                    # value or located errors with good spans).
+                    # both are value-or-located-errors outcomes but differ: the theorems are about a
+                    # mirror that no longer describes header.rs.  No property-level witness.
                     d = dict(base)
                     d.update({"mirror": mt[:600], "variant": "repaired" if HEADER_FIXED else "pinned",
                               "broken": "correspondence header.rs <-> C12/HeaderModel.v (C12_header_total, C12_header_spans_wellformed speak about the mirror)"})
-                    ctx.violation(d, no_input=True)
-                elif HEADER_FIXED or classify_header_failure(out, mo_, mf_) is None:
-                    d = dict(base)
-                    d.update({"mirror": mt[:600], "broken": "correspondence (failure class differs from the mirror's)"})
-                    ctx.violation(d, no_input=True)
+                    deferred.append(d)
+                # (when the implementation's outcome is itself a C12 witness it was reported above)
+    for d in deferred[:20]:
+        ctx.violation(d, no_input=True)
     ctx.oblige(ndiff == 0, "header correspondence (impl = %s mirror)" % ("repaired" if HEADER_FIXED else "pinned"))
     # C12 itself on the sampled inputs: with HEADER_FIXED the run must be free of witnesses; before
     # the repair the only witnesses allowed are the known classes (anything else is a VIOLATION)
